@@ -4,13 +4,13 @@ import hashlib
 
 ID = "C03"
 RULE = ("sessions against 0-4 scripted Keep services (per-request answers drawn from correct / flipped bits / "
-        "short / long / Content-Length != hint / no Content-Length / 404 / 408,429,5xx / other status / "
+        "short / long / long with a corrupted prefix / Content-Length != hint / no Content-Length / 404 / 408,429,5xx / other status / "
         "connection error; bodies end cleanly or with a transport error, optionally reporting the end with the "
         "last data, optionally failing Close, delivered in pieces of 1..1000 bytes) over 1-6 planted blocks "
         "(locators with consistent, missing, wrong, oversized or negative size hints, extra hints, the empty "
         "block, two locators sharing one hash), Retries 0-3, BlockCache MaxBlocks 0-3; ops: Get + ReadAll / "
         "WriteTo / ReadFull(m)+Close, Ask, ReadAt at many offsets, File.Read/Seek over a one-file manifest; "
-        "concurrent schedules (2-4 readers, 1-2 blocks, every fetch request blocked and released in scripted "
+        "re-read sessions (every first answer is a wrong 200, then the same block is read again through the same cache); concurrent schedules (2-4 readers, 1-2 blocks, every fetch request blocked and released in scripted "
         "order); storedSegment.ReadAt with arbitrary offset/length/off/len. Non-trivial = at least one HTTP "
         "request was made (or, for seg, the backend was called); distinct = distinct case line")
 ASSUMPTIONS = [
@@ -112,7 +112,7 @@ def _resp(rng, blk, hint, p_good):
             return "good", _body_resp(rng, n, blk)
         return "good-chunked", _body_resp(rng, -1, blk)
     kind = rng.choice(["flip", "short", "long", "badlen", "chunked-bad", "404", "retry", "other", "E", "E",
-                       "404", "retry", "swap", "lenonly"])
+                       "404", "retry", "swap", "lenonly", "long-flip"])
     if kind == "flip":
         return kind, _body_resp(rng, n if rng.random() < 0.8 else -1, _flip(rng, blk))
     if kind == "short":
@@ -123,6 +123,15 @@ def _resp(rng, blk, hint, p_good):
         extra = bytes(rng.randrange(256) for _ in range(rng.choice([1, 2, 9])))
         tail = blk + extra if rng.random() < 0.7 else blk + blk
         return kind, _body_resp(rng, n if rng.random() < 0.5 else -1, tail)
+    if kind == "long-flip":
+        # over-long body whose first len(blk) bytes are NOT the block (corrupted or foreign prefix), mostly
+        # without Content-Length: a reader that stops after `size` bytes sees only wrong bytes and must
+        # learn about it from Close draining and verifying the rest
+        head = _flip(rng, blk) if rng.random() < 0.7 else bytes(rng.randrange(256) for _ in range(max(1, n)))
+        if head[:n] == blk:
+            head = _flip(rng, blk)
+        extra = bytes(rng.randrange(256) for _ in range(rng.choice([1, 2, 9, 40])))
+        return "long", _body_resp(rng, -1 if rng.random() < 0.8 else n, head + extra)
     if kind == "badlen":
         # Content-Length disagrees with the size hint; body is the correct block or is cut/padded to it
         d = rng.choice([-2, -1, 1, 2, 7])
@@ -134,8 +143,9 @@ def _resp(rng, blk, hint, p_good):
         other = bytes(rng.randrange(256) for _ in range(n))
         return "flip", _body_resp(rng, n, other if other != blk else _flip(rng, blk))
     if kind == "chunked-bad":
-        v = rng.choice(["flip", "short", "long"])
-        data = _flip(rng, blk) if v == "flip" else blk[:max(0, n - 1)] if v == "short" else blk + b"\x07"
+        v = rng.choice(["flip", "short", "long", "longflip"])
+        data = (_flip(rng, blk) if v == "flip" else blk[:max(0, n - 1)] if v == "short" else blk + b"\x07"
+                if v == "long" else _flip(rng, blk) + b"\x07\x08")
         return kind, _body_resp(rng, -1, data)
     if kind == "swap":
         # right-looking answer for a different hint: first `hint` bytes / zero padded
@@ -266,6 +276,64 @@ def _gen_sess(rng, want_file=False, sweepy=False):
     return f"sess {retries} {maxb} {','.join(uuids) or '-'} {'|'.join(blocks)} {toks} {','.join(ops) or '-'}"
 
 
+def _gen_reread(rng):
+    """One or two consistent blocks whose first answers are all 200-but-wrong (flipped / short / long /
+    long with corrupted prefix, with or without Content-Length), followed by nothing, by non-200 answers or
+    by a good answer; the same block is then read several times through the same cache (ReadAt at several
+    offsets, or File.Read after an error): a failed fetch must never satisfy a later read."""
+    nsvc = rng.randint(1, 3)
+    uuids = _uuids(rng, nsvc)
+    retries = rng.choice([0, 0, 1])
+    nblk = rng.choice([1, 1, 2])
+    used, blocks, plants = set(), [], []
+    for _ in range(nblk):
+        for _ in range(50):
+            b = _content(rng)
+            if len(b) > 0 and f"{md5(b)}+{len(b)}" not in used:
+                break
+        loc = f"{md5(b)}+{len(b)}"
+        used.add(loc)
+        n = len(b)
+        scripts = []
+        for _ in range(nsvc):
+            sc = []
+            for _ in range(rng.randint(1, 3)):
+                k = rng.choice(["flip", "flip", "short", "long", "longflip", "longflip"])
+                clen = n if rng.random() < 0.6 else -1
+                if k == "flip":
+                    sc.append(_body_resp(rng, clen, _flip(rng, b)))
+                elif k == "short":
+                    sc.append(_body_resp(rng, clen, b[:rng.randrange(n)], short_declared=clen >= 0))
+                elif k == "long":
+                    sc.append(_body_resp(rng, -1, b + bytes(rng.randrange(256) for _ in range(rng.choice([1, 5])))))
+                else:
+                    sc.append(_body_resp(rng, -1, _flip(rng, b) + bytes(rng.randrange(256) for _ in range(rng.choice([1, 5])))))
+            tail = rng.choice(["none", "none", "status", "good", "good"])
+            if tail == "status":
+                sc += [rng.choice(["S404", "S500", "S503", "E"]) for _ in range(rng.randint(1, 3))]
+            elif tail == "good":
+                sc.append(_body_resp(rng, n if rng.random() < 0.7 else -1, b))
+            scripts.append(",".join(sc))
+        blocks.append(f"{loc}~{b.hex()}~{_order(loc[:32], uuids)}~{';'.join(scripts)}")
+        plants.append(b)
+    if rng.random() < 0.35:
+        total = sum(len(b) for b in plants)
+        toks = ",".join(f"{o}:{l}" for o, l in [(0, total)] + ([(rng.randint(0, total), 0)] if rng.random() < 0.3 else []))
+        ops = []
+        for _ in range(rng.randint(3, 9)):
+            ops.append(f"k{rng.randint(0, total)}" if rng.random() < 0.15 else f"r{rng.choice([1, 3, 16, 300])}")
+        return f"sess {retries} {rng.choice([0, 0, 1, 2])} {','.join(uuids)} {'|'.join(blocks)} {toks} {','.join(ops)}"
+    ops = []
+    for _ in range(rng.randint(3, 8)):
+        b = rng.randrange(nblk)
+        n = len(plants[b])
+        if rng.random() < 0.85:
+            ops.append(f"R{b}:{rng.choice([0, 0, 0, 1, n // 2, max(0, n - 1)])}:{rng.choice([1, n, n, 300])}")
+        else:
+            ops.append(f"G{b}" + rng.choice(["r", "w", f"c{rng.choice([0, 1, n // 2, n])}"]))
+    return f"sess {retries} {rng.choice([0, 0, 1, 2])} {','.join(uuids)} {'|'.join(blocks)} - {','.join(ops)}"
+
+
 def _gen_crashy(rng):
     """ReadAt of a locator whose hint is >= 2^31 answered without Content-Length: the fetch goroutine panics."""
     uuids = _uuids(rng, 1)
@@ -333,6 +401,8 @@ def generate(rng, tier):
         cases.append(_gen_conc(rng))
     for _ in range(300 * scale):
         cases.append(_gen_seg(rng))
+    for _ in range(200 * scale):
+        cases.append(_gen_reread(rng))
     for _ in range(4):
         cases.append(_gen_crashy(rng))
     return cases
